@@ -18,6 +18,12 @@ CLAIMS = {
         "technique": "Lean 4 proof (induction over chunk lists and base-58 digits; decide +kernel over regenerated tables) + differential correspondence of codec/read loop + entry-point monitor",
         "design_ref": "7 C01",
     },
+    "C04": {
+        "text": "Theorems over arbitrary histories of one path (any number of generations, any format lists, any digest function): a digest is marked original iff no earlier generation holds an original entry; for a recorded format verified iff it equals the EARLIEST recorded digest of that format, failed otherwise; appending generations never changes the reference; a digest in a new format is recorded only if no check of a recorded format failed; on an unaltered file no entry fails, every requested format succeeds, validation before writing never aborts, and by induction EVERY sequence of format choices succeeds. Tie: multi-generation scenarios (quick: sampled; thorough: all 63x63 two-generation format-subset sequences) run on implementation and model, folder and -sf mode, root and nested histories, content altered/restored; monitor: the property's statement evaluated on action attributes read by an independent XML reader.",
+        "note": "Path identity within one history without renames (renames are C17). " + COMMON_NOTE,
+        "technique": "Lean 4 proof (invariant over the history as a log, induction over sequences of generations) + scenario differential + independent action monitor",
+        "design_ref": "7 C04",
+    },
 }
 
 
